@@ -85,7 +85,7 @@ Print Assumptions C20_ngram_no_trigram_query_refuted.
 
 (* the consumer side: whatever mix of exact and inexact indices the planner picks, if every leaf search
    answers truthfully in its own kind (the three theorems above give AtMost supersets), the scan with the
-   indices returns exactly the rows of the scan without - outside the C19 classes (C19's theorem, restated) *)
+   indices returns exactly the rows of the scan without - outside C19's class not_over_nullable (C19's theorem, restated) *)
 Theorem C20_inexact_scan_eq_scan : forall (en : env) (info : index_info)
     (search : leaf -> outcome search_result) (cov : leaf -> list N) (ltruth : leaf -> N -> bool)
     (tbl : list rowT) (p : sexpr),
@@ -94,7 +94,6 @@ Theorem C20_inexact_scan_eq_scan : forall (en : env) (info : index_info)
   (forall ie sq, apply_scalar_indices info p = Ok ie -> scalar_query ie = Some sq ->
      forall l, In l (s_leaves sq) -> leaf_ok en search cov ltruth tbl l) ->
   Known_C19_not_over_nullable info tbl p = false ->
-  Known_C19_range_bounds_swapped info tbl p = false ->
   apply_scalar_indices info p <> Err ->
   index_scan en info search cov tbl p = Ok (full_scan en tbl p).
 Proof. exact index_scan_eq_scan. Qed.
